@@ -54,7 +54,23 @@ theorem predFut_fin_fst (x : MonCtx) (m : PredSt) (f : Nat) (ok : Bool) :
                realFailed := if ok then m.realFailed else m.realFailed ++ [f] } := rfl
 
 theorem predFut_fin_snd (x : MonCtx) (m : PredSt) (f : Nat) (ok : Bool) :
-    (predFut x m (.fin f ok)).2 = [] := rfl
+    (predFut x m (.fin f ok)).2 =
+      if ok then [] else
+        [.prop "C07" ((Ev.fin f ok).text ++ " (a function ordered after it was started before)")
+          (m.realInvoked.all (fun g => !reachPlus x.c.D f g))] := rfl
+
+/-- C07 at a failure: nothing ordered after the failing function has been started before -/
+theorem predFut_fin_ok (x : MonCtx) (m : PredSt) (f : Nat) (ok : Bool)
+    (h7 : ok = false → ∀ g ∈ m.realInvoked, reachPlus x.c.D f g = false) :
+    ∀ n ∈ (predFut x m (.fin f ok)).2, n.ok = true := by
+  rw [predFut_fin_snd]
+  cases ok with
+  | true => intro n hn; cases hn
+  | false =>
+    simp only [Bool.false_eq_true, if_false, List.mem_singleton]
+    rintro n rfl
+    simp only [Note.ok, List.all_eq_true, Bool.not_eq_true']
+    exact h7 rfl
 
 theorem predFut_q_fst (x : MonCtx) (m : PredSt) :
     (predFut x m .q).1 = { m with nEv := m.nEv + 1 } := rfl
